@@ -410,6 +410,12 @@ func runAgedClient(c agedClientCase) harness.Result {
 		if int(r.Addr)+int(r.Qty) > 65536 {
 			r.Addr = uint16(65536 - int(r.Qty))
 		}
+		d := dev
+		if i%7 == 3 {
+			// Read Server ID: the reply's length cannot be anticipated from the request (ids of 1..239 bytes, by device)
+			r = spec.Req{FC: 17, Unit: uint8(v >> 8), Tx: uint16(v >> 16)}
+			d = device.New(c.Seed + uint64(i%16))
+		}
 		reqBytes := spec.EncodeRequest(f, r)
 		code := uint8(0)
 		var frame []byte
@@ -417,7 +423,7 @@ func runAgedClient(c agedClientCase) harness.Result {
 			code = 1 + uint8(v>>4)%11
 			frame = spec.EncodeResponse(f, spec.Resp{FC: r.FC, Unit: r.Unit, Tx: r.Tx, IsException: true, Code: code})
 		} else {
-			frame = dev.Answer(f, reqBytes)
+			frame = d.Answer(f, reqBytes)
 		}
 		o := sess.Call(r, frame, []xport.Event{{Kind: "data", N: len(frame)}, {Kind: "ioerr"}})
 		where := fmt.Sprintf("call #%d on one long-lived %s client", i+1, c.Kind)
